@@ -132,7 +132,53 @@ def work_public(chunk):
     return res
 
 
+def work_raw_no_eid(chunk):
+    """Low-level socket created with its real user and keys but without an engine id: every message it sends before
+    (and after) the engine id is learnt carries the priv flag and nothing of the scoped PDU in clear."""
+    from .. import refber as rb
+    from . import c10
+
+    res = common.Result()
+    SYS = (1, 3, 6, 1, 2, 1, 1, 5, 0)
+    for case in chunk:
+        base = Cfg.from_desc(case["cfg"])
+        cfg = c10.EmptyEidCfg.from_desc(case["cfg"])
+        cfg.__class__ = c10.EmptyEidCfg
+        w = drivers.SplitWorld(cfg)
+        try:
+            for op in ("refresh", "get", "get_many", "refresh"):
+                o = w.send(op, rb.oid_str(SYS)) if op == "get" else (w.send(op, [rb.oid_str(SYS)]) if op == "get_many" else w.send(op))
+                data = w.take_request() if o.kind == "ok" else None
+                res.count("cases")
+                res.count("datagrams", 1 if data else 0)
+                res.count("api_calls")
+                res.distinct()
+                res.outcome("raw-no-engine-id")
+                if data is None:
+                    continue
+                r = rb.parse_message(data, strict=False)
+                prob = None
+                if not r.flags & 2:
+                    prob = "priv flag clear (msgFlags %02x)" % r.flags
+                elif r.encrypted is None:
+                    prob = "msgData is not encrypted"
+                elif rb.oid_content(SYS) in data and op != "refresh":
+                    prob = "the OID is readable in the datagram"
+                elif len(r.priv_params) != 8:
+                    prob = "msgPrivacyParameters is %d octets" % len(r.priv_params)
+                if prob:
+                    res.violation("raw-no-engine-id/%s: %s" % (base.name, histcheck.classify(prob)), "%s sent before the engine id is known: %s" % (op, prob), {"raw_no_eid": True, "cfg": case["cfg"]})
+                    break
+        finally:
+            w.close()
+    return res
+
+
 def replay(case):
+    if case.get("raw_no_eid"):
+        common.prepare_stage()
+        r = work_raw_no_eid([case])
+        return {"violations": [(v[0], v[1]) for v in r["violations"]]}
     if case.get("empty_priv"):
         from . import c12
 
@@ -159,4 +205,5 @@ def run(tier):
     common.run_cases(rec, work, list(gen_cases(tier)), chunk=50)
     pub = [{"empty_priv": True, "auth": a, "priv": p, "discover": d, "kt": 0, "klen": 0} for a, p, d in itertools.product((1, 2), (1, 2), (False, True))]
     common.run_cases(rec, work_public, pub, chunk=2)
+    common.run_cases(rec, work_raw_no_eid, [{"cfg": Cfg("v3", auth=a, priv=p, key_type=kt).describe()} for a in (1, 2) for p in (1, 2) for kt in (0, 1)], chunk=2)
     return histcheck.finish(rec)
